@@ -412,6 +412,40 @@ fn trim_error_line(chrs: &Vec<char>) -> String {
     return chars_to_string!(chrs[0..index]);
 } // trim_error_line()
 
+// Verification hooks (only with `--cfg suiron_verif`): public wrappers around the
+// private functions of this module, so that an external harness can call them.
+// They add nothing to the crate when the guard is off.
+
+#[cfg(suiron_verif)]
+pub fn verif_strip_comments_at(line: &str, round_depth: i32, square_depth: i32)
+                               -> (String, i32, i32) {
+    let mut rd = round_depth;
+    let mut sd = square_depth;
+    let s = strip_comments_at(line, &mut rd, &mut sd);
+    return (s, rd, sd);
+}
+
+#[cfg(suiron_verif)]
+pub fn verif_separate_rules(text: &str) -> Result<Vec<String>, String> {
+    return separate_rules(text);
+}
+
+#[cfg(suiron_verif)]
+pub fn verif_check_last_char(line: &str, num: usize) -> Option<String> {
+    return check_last_char(line, num);
+}
+
+#[cfg(suiron_verif)]
+pub fn verif_unmatched_bracket(error_line: &str, round_depth: i32,
+                               square_depth: i32) -> Option<String> {
+    return unmatched_bracket(error_line, round_depth, square_depth);
+}
+
+#[cfg(suiron_verif)]
+pub fn verif_trim_error_line(chrs: &Vec<char>) -> String {
+    return trim_error_line(chrs);
+}
+
 #[cfg(test)]
 mod test {
 
